@@ -4,14 +4,18 @@ Driver commands of L6-fs (abstract disk / crash model).  One line in, one line o
 GRAMMAR (all numbers decimal, all byte strings lower-case hex, the empty byte string is the EMPTY token):
 
   fs.recover tables=<T> wal=<W> comps=<C> waldir=<0|1> keys=<K>
-  fs.recimages tables=<T> wal=<W> comps=<C> waldir=<0|1>
-  fs.session async=<0|1> steps=<steps as for db.run> [sched=<S>]
+  fs.recimages tables=<T> wal=<W> comps=<C> waldir=<0|1> [junk=<J>]
+  fs.session async=<0|1> steps=<steps as for db.run> [sched=<S>] [junk=<J>]
 
   <T>  ::= ε | <tbl>("," <tbl>)*                 table directories sstable_%015d, any order (sorted by number here)
   <tbl>::= <gen> ":" <dir>
-  <dir>::= "partial"                             directory exists, does not load, meta.pb.bin missing or EMPTY
-         | "partialmeta"                         does not load although meta.pb.bin is there and non-empty
-         | <cells>                               loads; its records, any order (looked up by key)
+  <dir>::= "partial"                             NewSSTableReader FAILS on it and meta.pb.bin is missing or EMPTY
+         | "partialmeta"                         NewSSTableReader FAILS on it although meta.pb.bin is non-empty
+         | <cells>                               NewSSTableReader LOADS it; <cells> = what Get returns for the keys of
+                                                 its index, any order.  NOTE: the reader does not need the metadata: a
+                                                 directory whose index.rio and data.rio have headers loads as a
+                                                 "version 0" table while meta.pb.bin is still empty (showing nothing,
+                                                 or mis-parsed values) — that is <cells>, not "partial"
   <cells> ::= ε | <kv>(";" <kv>)*                (ε = a complete table without records)
   <kv> ::= <hexkey> "=" <val>                    <val> ::= "-" (tombstone / nil) | "." (empty value) | <hex>
   <W>  ::= ε | <file>("," <file>)*               files wal/%06d.wal
@@ -27,6 +31,9 @@ GRAMMAR (all numbers decimal, all byte strings lower-case hex, the empty byte st
   <K>  ::= ε | <hexkey>("," <hexkey>)*           probe keys ("." may be used for the empty key in <K>)
   <S>  ::= per step "<drain>" | "<drain>t"       asynchronous WAL only: records leaving the buffer during the step,
                                                  "t" = plus a piece of the next one; missing entries = "0"
+  <J>  ::= <cells>("|" <cells>)*                 what EVERY table written by a flush of this session is seen to load as
+                                                 before its metadata is written (keys not in the flushed store are
+                                                 dropped); "junk=|" = [empty table]; default: no such states
 
 ANSWERS
   fs.recover   → "ok ok=<0|1> tables=<gen;gen;…> vals=<v,v,…> wal=<num;num;…> events=<n>"
@@ -37,7 +44,8 @@ ANSWERS
   fs.recimages → "ok <img> <img> …": the disk after 0,1,2,… calls of the recovery; <img> = tables=<T>|wal=<W>|comps=<C>|waldir=<b>
                    in exactly the input syntax, canonical order
   fs.session   → "ok <n1>:<img>… " one group per step: "#<events of the step>" followed by the image after each
-                   event of that step (the image before the first step is the empty disk)
+                   event of that step (the image before the first step is the empty disk); a table that loads but
+                   has no metadata yet is printed as <gen>:~<cells>
 -/
 import SST.Spec.FS
 import SST.Drv.DB
@@ -141,12 +149,23 @@ def flagStr : Option CompMeta → String
   | none => "-"
   | some m => String.intercalate "+" (m.inputs.map toString) ++ ">" ++ toString m.replacement
 
-def diskStr (d : Disk) : String :=
-  "tables=" ++ String.intercalate "," (d.tables.map fun p => toString p.1 ++ ":" ++ dirStr p.2) ++
+def diskStr (d : Disk) (unf : List Nat := []) : String :=
+  "tables=" ++ String.intercalate "," (d.tables.map fun p =>
+      toString p.1 ++ ":" ++ (if unf.contains p.1 then "~" else "") ++ dirStr p.2) ++
   "|wal=" ++ String.intercalate "," (d.wal.map fun f => toString f.num ++ ":" ++ (if f.header then "H" else "N") ++ ":" ++
       (if f.torn then "T" else "C") ++ ":" ++ String.intercalate ";" (f.recs.map mutStr)) ++
   "|comps=" ++ String.intercalate "," (d.comps.map fun c => toString c.id ++ ":" ++ dirStr c.out ++ ":" ++ flagStr c.flag) ++
   "|waldir=" ++ (if d.walDir then "1" else "0")
+
+/-- the images after each event, with the numbers of the tables that load without metadata -/
+def imagesU (d : Disk) (unf : List Nat) : List Ev → List String
+  | [] => []
+  | e :: es =>
+    let unf' := match e with
+      | .tblLoadable g _ => g :: unf
+      | .tblComplete g _ => unf.filter (· != g)
+      | _ => unf
+    diskStr (applyEv d e) unf' :: imagesU (applyEv d e) unf' es
 
 def optBytesStr : Option Bytes → String
   | none => "-"
@@ -173,29 +192,35 @@ def imagesOf (d : Disk) : List Ev → List Disk
 /-- `fs.recimages` -/
 def fsRecImages (a : Args) : String :=
   match parseDisk a with
-  | some d => "ok " ++ String.intercalate " " ((d :: imagesOf d (recoverEvents d)).map diskStr)
+  | some d =>
+    match (match a.get? "junk" with | none => some [] | some j => (j.splitOn "|").mapM parseCells) with
+    | some junk => "ok " ++ String.intercalate " " (diskStr d :: imagesU d [] (recoverEvents d junk))
+    | none => "bad-op"
   | none => "bad-op"
 
 def parseSched (s : String) : Option (Nat × Bool) :=
   if s.endsWith "t" then (s.dropEnd 1).toString.toNat?.map (·, true) else s.toNat?.map (·, false)
 
-def sessionLoop (async : Bool) : Disk → Vol → List (Step × Nat × Bool) → List String
+def sessionLoop (async : Bool) (junk : List Layer) : Disk → Vol → List (Step × Nat × Bool) → List String
   | _, _, [] => []
   | d, v, (st, dr, tn) :: rest =>
-    let (es, v') := fsStep async d v { st := st, drain := dr, torn := tn }
-    (("#" ++ toString es.length) :: (imagesOf d es).map diskStr) ++ sessionLoop async (applyEvs d es) v' rest
+    let (es, v') := fsStep async d v { st := st, drain := dr, torn := tn, junk := junk }
+    (("#" ++ toString es.length) :: imagesU d [] es) ++ sessionLoop async junk (applyEvs d es) v' rest
 
 /-- `fs.session` -/
 def fsSession (a : Args) : String :=
   let async := a.getD "async" "0" == "1"
-  match (splitList (a.getD "steps" "")).mapM parseStep, (splitList (a.getD "sched" "")).mapM parseSched with
-  | some steps, some sched =>
+  let junk? : Option (List Layer) := match a.get? "junk" with
+    | none => some []
+    | some j => (j.splitOn "|").mapM parseCells
+  match (splitList (a.getD "steps" "")).mapM parseStep, (splitList (a.getD "sched" "")).mapM parseSched, junk? with
+  | some steps, some sched, some junk =>
     if steps.any Option.isNone then "bad-op" else
     let sts := steps.filterMap id
     let withSched := (List.range sts.length).zip sts |>.map fun (i, st) =>
       let sc := sched.getD i (0, false)
       (st, sc.1, sc.2)
-    "ok " ++ String.intercalate " " (sessionLoop async {} {} withSched)
-  | _, _ => "bad-op"
+    "ok " ++ String.intercalate " " (sessionLoop async junk {} {} withSched)
+  | _, _, _ => "bad-op"
 
 end SST.Drv.Fs
